@@ -117,8 +117,16 @@ Definition apply_event (m : n2map rec) (e : event) : n2map rec :=
 Definition recs_of (es : list event) : n2map rec := fold_left apply_event es [].
 Definition wlog_of (es : list event) : n2map event :=
   fold_left (fun m e => put2 m (e_ws e) (e_woff e) e) es [].
-Definition proj_of (es : list event) : n2map N :=
-  fold_left (fun m e => put2 m (e_ws e) (e_woff e) (e_tag e)) es [].
+(* Which events a sync projector is run for. d = false: subscribed ON EXECUTE of the command
+   (every event of the log); d = true: subscribed AFTER DEACTIVATE of the document type only (the
+   events with a deactivation row). *)
+Definition has_deact (e : event) : bool :=
+  existsb (fun c => match c with EDeact _ => true | _ => false end) (e_cuds e).
+Definition trig (d : bool) (e : event) : bool := negb d || has_deact e.
+
+(* the view of a projector of kind d that a complete log stands for *)
+Definition proj_of (d : bool) (es : list event) : n2map N :=
+  fold_left (fun m e => if trig d e then put2 m (e_ws e) (e_woff e) (e_tag e) else m) es [].
 
 Fixpoint index_from {A} (o : N) (l : list A) : nmap A :=
   match l with [] => [] | x :: r => (o, x) :: index_from (o + 1) r end.
@@ -181,6 +189,8 @@ Definition issue (plan : list fault) (t : target) (op : N) (l : wlogT) : option 
 Record conf := mkConf {
   k_fx : bool;      (* cmdProc.putPLog hands PutPlog's error to the pipeline *)
   k_early : bool;   (* the sync actualizer's flush loop stops at the first error *)
+  k_sees : bool;    (* an event decoded from the PLog still tells that a row deactivates its record
+                       (ICUDRow.IsDeactivated; rowType.isActiveModified is restored by the decoder) *)
   k_tl : N          (* sequences trust level *)
 }.
 
@@ -215,23 +225,38 @@ Definition w_wlog (cond : bool) (plan : list fault) (e : event) (s : store) (l :
   let '(app, ok) := wr f cond (is_some (get2 (wlog s) (e_ws e) (e_woff e))) in
   (if app then set_wlog s (put2 (wlog s) (e_ws e) (e_woff e) e) else s, l', ok).
 
-(* the intent of sync projector j, applied by one PutBatch of its view row (ApplyIntents) *)
-Definition w_proj1 (plan : list fault) (j : N) (e : event) (s : store) (l : wlogT) : store * wlogT * bool :=
-  let '(f, l') := issue plan TView opPutBatch l in
-  let '(app, ok) := wr f false false in
-  (if app then set_proj s (put3 (proj s) j (e_ws e) (e_woff e) (e_tag e)) else s, l', ok).
+(* actualizers.ProjectorEvent on the event the processor holds. A re-applied event was decoded from
+   the PLog; unless the decoder restores the "sys.IsActive was modified" flag, IsDeactivated() is
+   false on it and an AFTER DEACTIVATE projector is not triggered by the re-apply. *)
+Definition trig_at (sees reapply d : bool) (e : event) : bool :=
+  if reapply && negb sees then negb d else trig d e.
+
+(* the projectors the re-apply triggers exactly as the command did: all of them if the decoder
+   restores what IsDeactivated() needs, otherwise those not subscribed AFTER DEACTIVATE only *)
+Definition good (sees : bool) (dk : N -> bool) (j : N) : Prop := sees = true \/ dk j = false.
+Definition all_projectors (j : N) : Prop := True.
+
+(* sync projector j (of kind d): if triggered, its intent is applied by one PutBatch of its view
+   row (ApplyIntents); a projector that is not triggered has no intents and issues no call *)
+Definition w_proj1 (sees reapply : bool) (plan : list fault) (jd : N * bool) (e : event) (s : store) (l : wlogT)
+  : store * wlogT * bool :=
+  if trig_at sees reapply (snd jd) e then
+    let '(f, l') := issue plan TView opPutBatch l in
+    let '(app, ok) := wr f false false in
+    (if app then set_proj s (put3 (proj s) (fst jd) (e_ws e) (e_woff e) (e_tag e)) else s, l', ok)
+  else (s, l, true).
 
 (* syncActualizerFactory, step "IntentsApplier": the states of the projectors are flushed in the
    order ord; `err = st.ApplyIntents()` in a loop. early = the loop returns at the first error;
    otherwise every state is flushed and the error of the last one is the step's error.
    last = the result so far. *)
-Fixpoint w_projs (early : bool) (plan : list fault) (ord : list N) (e : event) (s : store) (l : wlogT)
+Fixpoint w_projs (early sees reapply : bool) (plan : list fault) (ord : list (N * bool)) (e : event) (s : store) (l : wlogT)
   (last : bool) : store * wlogT * bool :=
   match ord with
   | [] => (s, l, last)
-  | j :: r =>
-      let '(s1, l1, ok) := w_proj1 plan j e s l in
-      if negb ok && early then (s1, l1, false) else w_projs early plan r e s1 l1 ok
+  | jd :: r =>
+      let '(s1, l1, ok) := w_proj1 sees reapply plan jd e s l in
+      if negb ok && early then (s1, l1, false) else w_projs early sees reapply plan r e s1 l1 ok
   end.
 
 (* putRecordsBatch, trust level 0: one call per record, InsertIfNotExists for new ones; stops at
@@ -263,7 +288,7 @@ Definition w_recs_batch (plan : list fault) (ws : N) (rs : list (N * rec * bool)
 
 (* cmdProc.storeOp: applyRecords, then the fork (sync projectors || PutWlog); both branches of
    the fork always run; reapply = through IEventReapplier (recovery) *)
-Definition store_op (k : conf) (ord : list N) (plan : list fault) (reapply : bool) (e : event) (s : store) (l : wlogT)
+Definition store_op (k : conf) (ord : list (N * bool)) (plan : list fault) (reapply : bool) (e : event) (s : store) (l : wlogT)
   : store * wlogT * bool :=
   let tl := k_tl k in
   match results (recs s) (e_ws e) (e_cuds e) with
@@ -273,7 +298,7 @@ Definition store_op (k : conf) (ord : list N) (plan : list fault) (reapply : boo
         if recs_each tl reapply then w_recs_each plan (e_ws e) rs s l
         else w_recs_batch plan (e_ws e) rs s l in
       if negb ok1 then (s1, l1, false) else
-      let '(s2, l2, okv) := w_projs (k_early k) plan ord e s1 l1 true in
+      let '(s2, l2, okv) := w_projs (k_early k) (k_sees k) reapply plan ord e s1 l1 true in
       let '(s3, l3, okw) := w_wlog (wlog_cond tl reapply) plan e s2 l2 in
       (s3, l3, okv && okw)
   end.
@@ -307,7 +332,7 @@ Definition state0 : state := mkState store0 None.
 
 (* cmdProc.recovery: returns the store, the call log, and the partition state unless a write of
    the re-apply failed *)
-Definition recover (k : conf) (ord : list N) (plan : list fault) (s : store) (l : wlogT) : store * wlogT * option part :=
+Definition recover (k : conf) (ord : list (N * bool)) (plan : list fault) (s : store) (l : wlogT) : store * wlogT * option part :=
   let p := scan (plog s) in
   match last_opt (map snd (plog s)) with
   | None => (s, l, Some p)
@@ -377,7 +402,7 @@ Record outcome := mkOut { o_reply : reply; o_written : bool; o_calls : wlogT }.
 
 (* one command through the processor; ord = the order in which the sync actualizer serving it
    flushes the projectors *)
-Definition process (k : conf) (ord : list N) (tag : N) (c : command) (plan : list fault) (st : state)
+Definition process (k : conf) (ord : list (N * bool)) (tag : N) (c : command) (plan : list fault) (st : state)
   : state * outcome :=
   let '(s0, l0, mp) :=
     match mem st with
@@ -406,7 +431,7 @@ Inductive step := SCmd (c : command) (plan : list fault) | SRestart.
    replaced by a new one: its partition state is gone, which `process` already says. *)
 (* ords: the flush order of the sync actualizer that serves the command with a given stamp (a
    Go map order, fixed when the partition is deployed; any function here) *)
-Fixpoint run (k : conf) (ords : N -> list N) (tag : N) (steps : list step) (st : state) : state * list outcome :=
+Fixpoint run (k : conf) (ords : N -> list (N * bool)) (tag : N) (steps : list step) (st : state) : state * list outcome :=
   match steps with
   | [] => (st, [])
   | SRestart :: r => run k ords tag r (mkState (sto st) None)
@@ -416,9 +441,10 @@ Fixpoint run (k : conf) (ords : N -> list N) (tag : N) (steps : list step) (st :
       (st2, o :: os)
   end.
 
-(* every one of the np projectors (numbered 0..np-1) is flushed, no other *)
-Definition ord_ok (np : N) (ord : list N) : Prop := forall j, In j ord <-> j < np.
-Definition ords_ok (np : N) (ords : N -> list N) : Prop := forall t, ord_ok np (ords t).
+(* every one of the np projectors (numbered 0..np-1, projector j of kind dk j) is flushed, no other *)
+Definition ord_ok (np : N) (dk : N -> bool) (ord : list (N * bool)) : Prop :=
+  forall j d, In (j, d) ord <-> j < np /\ d = dk j.
+Definition ords_ok (np : N) (dk : N -> bool) (ords : N -> list (N * bool)) : Prop := forall t, ord_ok np dk (ords t).
 
 (* ---------- traces ---------- *)
 
@@ -429,9 +455,12 @@ Inductive ostep :=
 Record trace := mkTrace {
   t_tl : N;
   t_np : N;   (* number of sync projectors of the test application *)
+  t_deact : bool;   (* their kind: all subscribed AFTER DEACTIVATE only (variant with one such
+                       projector), or all ON EXECUTE of the command *)
   (* judge everything except the clauses of the recorded findings ("exactly one reply": F11, repaired;
      "an error reply for a failed PLog write means the command is in no store", asked also of a
-     write that failed after taking effect: C01-F2): set on the second copy of a trace that shows
+     write that failed after taking effect: C01-F2; "every event that triggers a projector has its row
+     in that projector's view", for AFTER DEACTIVATE projectors: C01-F3): set on the second copy of a trace that shows
      one of them, so that a known finding cannot hide another violation *)
   t_lenient : bool;
   t_steps : list ostep;
@@ -495,13 +524,15 @@ Fixpoint nseq (o : N) (n : nat) : list N :=
   match n with O => [] | S n' => o :: nseq (o + 1) n' end.
 
 (* the model with the flags of the Go source *)
-Definition code_conf (tl : N) : conf := mkConf c01_putplog_returns_err c01_sync_flush_stops_at_error tl.
+Definition code_conf (tl : N) : conf :=
+  mkConf c01_putplog_returns_err c01_sync_flush_stops_at_error c01_decode_restores_active_modified tl.
 
 (* The flush order of the real sync actualizer is a Go map order; which projector a k-th view
    write belongs to is not compared. Nothing that is compared depends on it (replies, number and
    kind of the calls, the stores after the final clean command), so the model runs with 0,1,2... *)
 Definition agrees (t : trace) : bool :=
-  let '(st, outs) := run (code_conf (t_tl t)) (fun _ => nseq 0 (N.to_nat (t_np t))) 1 (steps_of (t_steps t)) state0 in
+  let '(st, outs) := run (code_conf (t_tl t)) (fun _ => map (fun j => (j, t_deact t)) (nseq 0 (N.to_nat (t_np t))))
+                         1 (steps_of (t_steps t)) state0 in
   obs_match (t_steps t) outs
   && nmap_eqb event_eqb (t_plog t) (plog (sto st))
   && n2map_eqb event_eqb (t_wlog t) (wlog (sto st))
@@ -517,7 +548,20 @@ Fixpoint dedup (l : list N) : list N :=
    holds exactly the PLog events of that workspace, in order, at offsets 1..m, each carrying its
    own offset; the records are the fold of the PLog; one view row per event in the view of every
    one of the np sync projectors, and no other view rows *)
-Definition consistentb (np : N) (pl : nmap event) (wl : n2map event) (rc : n2map rec) (pj : n3map N) : bool :=
+(* the view of a projector of kind d against the WLog read back: no row but those of events that
+   trigger it (with the event's stamp); a row for every such event *)
+Definition rows_ok (d : bool) (wl : n2map event) (v : n2map N) : bool :=
+  forallb (fun x => forallb (fun y =>
+             match get2 wl (fst x) (fst y) with
+             | Some e => trig d e && (e_tag e =? snd y)
+             | None => false
+             end) (snd x)) v.
+Definition rows_all (d : bool) (wl : n2map event) (v : n2map N) : bool :=
+  forallb (fun x => forallb (fun y =>
+             negb (trig d (snd y)) || option_eqb N.eqb (get2 v (fst x) (fst y)) (Some (e_tag (snd y)))) (snd x)) wl.
+
+(* sub = only "no wrong row" is asked of the views (lenient copy of a trace that shows C01-F3) *)
+Definition consistentb (np : N) (d sub : bool) (pl : nmap event) (wl : n2map event) (rc : n2map rec) (pj : n3map N) : bool :=
   let es := map snd pl in
   list_eqb N.eqb (map fst pl) (nseq 1 (length es))
   && forallb (fun ws =>
@@ -525,8 +569,7 @@ Definition consistentb (np : N) (pl : nmap event) (wl : n2map event) (rc : n2map
        && list_eqb N.eqb (map e_woff (ws_events ws es)) (nseq 1 (length (ws_events ws es))))
      (dedup (map e_ws es ++ map fst wl))
   && n2map_eqb rec_eqb rc (recs_of es)
-  && forallb (fun j => n2map_eqb N.eqb (inner3 pj j)
-                         (map (fun x => (fst x, map (fun y => (fst y, e_tag (snd y))) (snd x))) wl))
+  && forallb (fun j => rows_ok d wl (inner3 pj j) && (sub || rows_all d wl (inner3 pj j)))
              (nseq 0 (N.to_nat np))
   && forallb (fun x => fst x <? np) pj.
 
@@ -609,7 +652,7 @@ Definition n_cmds (os : list ostep) : N :=
 
 Definition satisfies (t : trace) : bool :=
   let es := map snd (t_plog t) in
-  consistentb (t_np t) (t_plog t) (t_wlog t) (t_recs t) (t_proj t)
+  consistentb (t_np t) (t_deact t) (t_lenient t && t_deact t) (t_plog t) (t_wlog t) (t_recs t) (t_proj t)
   && acts_ok [] es
   && replies_ok (t_lenient t) es 1 (t_steps t)
   && forallb (fun e => (1 <=? e_tag e) && (e_tag e <=? n_cmds (t_steps t))) es.
@@ -624,16 +667,21 @@ Definition events (st : state) : list event := map snd (plog (sto st)).
    - per workspace the WLog holds exactly the PLog events of that workspace, in log order, at
      offsets 1, 2, ... without a gap, and each event carries the WLog offset it is stored at;
    - the records are the fold of the PLog events;
-   - the view of every one of the np synchronous projectors has exactly one row per WLog row,
-     with that event's stamp. *)
-Definition consistent (np : N) (s : store) : Prop :=
+   - the view of every one of the np synchronous projectors (projector j of kind dk j) that
+     satisfies P has exactly one row per WLog row whose event triggers it, with that event's stamp. *)
+Definition consistent (np : N) (dk : N -> bool) (P : N -> Prop) (s : store) : Prop :=
   let es := map snd (plog s) in
   map fst (plog s) = nseq 1 (length es)
   /\ (forall ws w, get2 (wlog s) ws w =
                    if w =? 0 then None else nth_error (ws_events ws es) (N.to_nat (w - 1)))
   /\ (forall ws, map e_woff (ws_events ws es) = nseq 1 (length (ws_events ws es)))
   /\ (forall ws id, get2 (recs s) ws id = get2 (recs_of es) ws id)
-  /\ (forall j, j < np -> forall ws w, get3 (proj s) j ws w = option_map e_tag (get2 (wlog s) ws w)).
+  /\ (forall j, j < np -> P j -> forall ws w,
+        get3 (proj s) j ws w =
+        match get2 (wlog s) ws w with
+        | Some e => if trig (dk j) e then Some (e_tag e) else None
+        | None => None
+        end).
 
 (* the reply of a command whose event e is in the log: a success names e's WLog offset and new
    IDs; a client error (4xx) is never given for a command that is in the log *)
